@@ -217,6 +217,35 @@ impl Index for HnswIndex {
         // Prepare query vector
         let prepared_query = self.prepare_vector(query);
 
+        // Small index: when the search breadth covers every live vector an exact scan is both
+        // cheaper and exact. The graph search is approximate even then - it can miss vectors
+        // (duplicates, weakly connected nodes) and, for Manhattan, reranks only 4k L2 candidates.
+        if inner.index_to_tuple_id.len() <= ef_search {
+            let vectors = self.vectors.read();
+            let tombstones = self.tombstones.read();
+            let mut results: Vec<(TupleId, f64)> = vectors
+                .iter()
+                .filter(|(id, v)| !tombstones.contains(id) && v.len() == prepared_query.len())
+                .map(|(id, v)| {
+                    let dist = if is_manhattan {
+                        Self::manhattan_distance(&prepared_query, v)
+                    } else {
+                        let l2 = prepared_query
+                            .iter()
+                            .zip(v.iter())
+                            .map(|(a, b)| (a - b) * (a - b))
+                            .sum::<f32>()
+                            .sqrt();
+                        self.transform_distance(l2)
+                    };
+                    (*id, dist)
+                })
+                .collect();
+            results.sort_by(|a, b| a.1.partial_cmp(&b.1).unwrap_or(std::cmp::Ordering::Equal));
+            results.truncate(k);
+            return results;
+        }
+
         // For Manhattan, request more candidates since L2 ordering != L1 ordering.
         // Reranking from a larger candidate set improves recall.
         let search_k = if is_manhattan { k * 4 } else { k };
